@@ -155,7 +155,7 @@ def main():
                            serves_properties=sorted(CHECKS), kind_free_text="Coq 8.16 theorems about a hand-written Gallina model; "
                            "model tied to the code by a bit-exact differential correspondence check run on every invocation")],
              checks=checks, not_applicable=na,
-             notes="Repairs of genuine defects are the four 'fix:' commits in /repo (see known_findings.json and DESIGN.md section 2).")
+             notes="Repairs of genuine defects are the five 'fix:' commits in /repo (defects D1-D6; see known_findings.json and DESIGN.md section 2 and Appendix D); recorded, unrepaired findings are K1-K5 (known_findings.json), each printed as KNOWN-FINDING by the check of its property. No hooks: the checks observe the public API, the command-line tools and the files they write; the one wrapper (a snapshot of the node lists when the reward loop starts) is installed by the harness at run time, not in /repo.")
     json.dump(m, open(os.path.join(VERIF, "MANIFEST.json"), "w"), indent=1)
 if __name__ == "__main__":
     main()
